@@ -1,5 +1,11 @@
 //! `to_xdr` is modelled as an injective, deterministic serialisation: length-tagged flat words
 //! as big-endian bytes (NOT byte-identical to XDR; only injectivity and determinism are used).
+//!
+//! Feature `xdrdigest`: the serialisation of a value is a 4-byte HANDLE instead: the index of the record
+//! `(type id, flat words)` in the injective oracle's table (equal values of one type <-> equal handles,
+//! fixed width, so concatenations of handles are injective on tuples as concatenations of XDR are). For code
+//! that only appends and hashes serialisations (e.g. the smart account's rule fingerprint, whose faithful
+//! serialisation of a `Vec<Signer>` can never fit into one model `Bytes`). Not invertible (`from_xdr` overflows).
 use crate::model::{self, BYTES_CAP};
 use crate::{Bytes, Env, Flat};
 
@@ -10,6 +16,7 @@ pub trait FromXdr: Sized {
     type Error;
     fn from_xdr(e: &Env, b: &Bytes) -> Result<Self, Self::Error>;
 }
+#[cfg(not(feature = "xdrdigest"))]
 impl<T: Flat> ToXdr for T {
     fn to_xdr(self, e: &Env) -> Bytes {
         let mut w = [0u64; model::VW];
@@ -26,6 +33,33 @@ impl<T: Flat> ToXdr for T {
         out
     }
 }
+#[cfg(feature = "xdrdigest")]
+impl<T: Flat> ToXdr for T {
+    fn to_xdr(self, e: &Env) -> Bytes {
+        if T::W + 1 > model::HW || BYTES_CAP < 4 {
+            model::overflow()
+        }
+        let mut inp = [0u64; model::HW];
+        inp[0] = T::TY;
+        self.put(&mut inp[1..1 + T::W]);
+        let out = model::hash_oracle(5, T::W as u32, &inp);
+        // the handle: index of the (unique) record with this output
+        let w = model::world();
+        let mut idx = 0u32;
+        let mut i = 0;
+        while i < model::NH {
+            if (i as u32) < w.n_hashes {
+                let o = &w.hashes[i].out;
+                if o[0] == out[0] && o[1] == out[1] && o[2] == out[2] && o[3] == out[3] {
+                    idx = i as u32;
+                }
+            }
+            i += 1;
+        }
+        Bytes::from_array(e, &[0x58, 0x44, (idx >> 8) as u8, idx as u8])
+    }
+}
+#[cfg(not(feature = "xdrdigest"))]
 impl<T: Flat> FromXdr for T {
     type Error = crate::ConversionError;
     fn from_xdr(_e: &Env, b: &Bytes) -> Result<Self, Self::Error> {
@@ -34,5 +68,13 @@ impl<T: Flat> FromXdr for T {
         }
         let words = b.words();
         Ok(T::unflat(&words[..T::W]))
+    }
+}
+#[cfg(feature = "xdrdigest")]
+impl<T: Flat> FromXdr for T {
+    type Error = crate::ConversionError;
+    fn from_xdr(_e: &Env, _b: &Bytes) -> Result<Self, Self::Error> {
+        // a handle cannot be turned back into a value
+        model::overflow()
     }
 }
